@@ -17,6 +17,7 @@ RULE = (
     'final displacement or a non-orthogonal cell, and at least one face crossing; distinct = SHA-1 of the walk.'
 )
 RULE += ' Added in rounds 6-9: result retention; re-query after extend(); a second run of the same shape analysed while the first result is held; atomic-unit and arbitrary time steps.'
+RULE += ' Round 15: a tenth of the walks also as variable-cell runs: a loud refusal is accepted, an answer built from a single frame\'s cell is not.'
 RULE += ' Round 14: an atom on dyadic coordinates that moves and returns exactly to its first position (final accumulated displacement 0.0).'
 RULE += ' Round 12: one run (four in the thorough tier) of 1.45-1.9 million atom-frames with 3, 5 or 7 atoms, compared with the direct time-origin average at ~50 sampled lags.'
 ASSUMPTIONS = [
@@ -154,6 +155,29 @@ def run_unit(unit, rng, ctx):
             _ = traj.drift()
     what += f' after {pre}' if pre else ''
     ctx.count('cases_with_prior_queries', bool(pre))
+    if unit['i'] % 10 == 7 and not huge:
+        # a variable-cell (NPT) run: one lattice per frame, breathing by +-10 %.  The library may refuse it loudly; if it
+        # answers, the answer is built from unwrapped Cartesian positions of the cells the run actually had (positions in
+        # the cell of their frame, or displacement steps converted in the cell of their frame) - not of one frame's cell
+        from gemdat import Trajectory as _Tr
+
+        lat_t = np.stack([m * (1 + 0.1 * np.sin(0.37 * t_ + 0.5)) for t_ in range(T)])
+        tv = _Tr(species=gen.species_objects(names), coords=(U - np.floor(U)).copy(), lattice=lat_t, constant_lattice=False, time_step=dt, metadata={'temperature': 300.0})
+        try:
+            got_v = np.asarray(tv.distances_from_base_position())
+            answered = True
+        except Exception:  # noqa: BLE001
+            answered = False
+            ctx.count('variable_cell_runs_refused_loudly')
+        if answered:
+            cumf = U - U[:1]
+            def_a = np.linalg.norm(np.einsum('tad,tde->tae', cumf, lat_t), axis=2).T
+            stp = np.diff(U, axis=0, prepend=U[:1])
+            def_b = np.linalg.norm(np.cumsum(np.einsum('tad,tde->tae', stp, lat_t), axis=0), axis=2).T
+            sc_v = max(float(def_a.max()), 1e-12)
+            okv = got_v.shape == def_a.shape and (float(np.abs(got_v - def_a).max()) <= 1e-6 * sc_v or float(np.abs(got_v - def_b).max()) <= 1e-6 * sc_v)
+            ctx.check(okv, f'{what} [variable cell, +-10 %]: distances_from_base_position answered, but not with the Cartesian lengths of the unwrapped displacements in the cells of the run (max dev {float(np.abs(got_v - def_a).max()) if got_v.shape == def_a.shape else got_v.shape} A of {sc_v:.3f})', {'matrix': m})
+            ctx.count('variable_cell_runs_answered')
     got = np.asarray(traj.mean_squared_displacement())
     scale = max(float(want.max()), 1e-12)
     ok_shape = got.shape == want.shape
